@@ -30,6 +30,7 @@
 (*   cof      continue_on_failure;   bust  bust_cache                      *)
 (*   fail     tasks whose run() raises                                     *)
 (*   storage  TRUE iff the Lab has a storage                               *)
+(*   badload  cached tasks whose stored result cannot be read (corrupted)  *)
 (***************************************************************************)
 EXTENDS Naturals, Sequences, FiniteSets, TLC
 
@@ -82,6 +83,7 @@ Deps(t) == Range(cfg.deps[t])
 Req == Range(cfg.req)
 Cached0 == Range(cfg.cached0)
 FailSet == Range(cfg.fail)
+BadLoad == Range(cfg.badload)
 Cacheable(t) == cfg.storage /\ cfg.tcache[cfg.typ[t]]
 UsesCache(t) == t \in Cached0 /\ ~cfg.bust
 Needed(t) == IF UsesCache(t) THEN {} ELSE Deps(t)
@@ -129,6 +131,8 @@ AnyFail == \E t \in Tasks : done[t] = "fail"
 -----------------------------------------------------------------------------
 (* C01  run_tasks returns exactly each requested task's own computed result *)
 
+NothingCanFail == FailSet = {} /\ died = {} /\ (BadLoad \cap Cached0 = {} \/ cfg.bust)
+C01_Returns == (phase # "running" /\ intCount = 0 /\ NothingCanFail) => phase = "returned"    \* an acyclic all-succeeding set returns
 C01_Keys   == (phase = "returned" /\ AllOk) => outKeys = Dedup(cfg.req)
 C01_Values == phase = "returned" =>
                 /\ Len(outVals) = Len(outKeys)
@@ -177,7 +181,7 @@ C05_AtRest == (atrest /\ Calm) => Cardinality(slot) = Min2(MaxW, SumAllowed(Type
 
 (* C10  one task's failure never disturbs unrelated tasks *)
 
-OwnFailure(t) == t \in FailSet \/ t \in died \/ (\E d \in Needed(t) : done[d] = "fail" \/ fin[d] = "fail")
+OwnFailure(t) == t \in FailSet \/ t \in died \/ (t \in BadLoad /\ UsesCache(t)) \/ (\E d \in Needed(t) : done[d] = "fail" \/ fin[d] = "fail")
 C10_OnlyOwnFailures == \A t \in Tasks : (done[t] = "fail" \/ fin[t] = "fail") => OwnFailure(t)
 C10_Continue ==
     (cfg.cof /\ intCount = 0 /\ phase # "running") =>
@@ -217,7 +221,7 @@ C14_RunningCached ==
        \A t \in Tasks : ( /\ runCount[t] > 0 /\ Cacheable(t) /\ t \notin FailSet /\ t \notin died
                           /\ \A d \in Deps(t) : fin[d] = "ok" ) => t \in cachedNow
 C14_CacheConsistent ==
-    obsCache => \A t \in cachedNow : cacheVals[t] # <<>> /\ (cacheVals[t] = Val(t) \/ cacheVals[t] = ValE(t, 0))
+    obsCache => \A t \in cachedNow \ (BadLoad \cap Cached0) : cacheVals[t] # <<>> /\ (cacheVals[t] = Val(t) \/ cacheVals[t] = ValE(t, 0))
 
 (* C16  each task runs in the environment its backend and context promise *)
 
